@@ -234,7 +234,7 @@ impl Prop for Events {
         "events"
     }
     fn cases(&self, tier: Tier) -> u64 {
-        tier.pick(300_000, 6_000_000)
+        tier.pick(300_000, 2_000_000)
     }
     fn strategy(&self, tier: Tier) -> BoxedStrategy<Case> {
         let mut shape = HistoryShape::default_for(tier);
